@@ -73,9 +73,12 @@ def cases(draw):
         texts = draw(I.inputs_for(g, cfg, n=4, mutate=False))
         names = [r["name"] for r in g["rules"]]
         uc = draw(st.lists(st.sampled_from(names), max_size=2, unique=True)) if draw(st.integers(0, 9)) < 3 else []
+        falsy_kind = draw(st.sampled_from([None, None, "len", "bool", "eq"])) if uc else None
+        if falsy_kind == "eq":
+            uc = names  # every common rule gets a value-equal user class: equal objects of one class are then frequent
         return {"kind": "grammar", "g": g, "cfg": cfg, "inputs": texts, "userclasses": sorted(uc),
                 # user classes may be container-like: instances that are falsy (__len__ == 0 / __bool__ False)
-                "falsy": draw(st.sampled_from([None, None, "len", "bool", "eq"])) if uc else None,
+                "falsy": falsy_kind,
                 "queries": draw(st.lists(queries(names), min_size=3, max_size=3))}
     return {"kind": "classes", "model": draw(M.class_models(depth=2, max_top=3)),
             "queries": draw(st.lists(queries(["Package", "Cls", "Attr", "Model"]), min_size=3, max_size=3))}
